@@ -3,6 +3,7 @@ package main
 import (
 	"go/token"
 	"go/types"
+	"sort"
 	"strings"
 
 	"golang.org/x/tools/go/ssa"
@@ -541,6 +542,34 @@ func ruleHeapDirection(c *Ctx, r *R) {
 				}
 			}
 			r.ok(good, "heap.Heap.percolateDown|swap-guard#"+itoa(n), call.Pos(), "min-heap: an element moves down only when less(child, element)")
+			// ... and the sink continues from the slot the element was swapped INTO (the child it was exchanged with): continuing
+			// from the other child leaves the element where it is, possibly above a smaller grandchild
+			if len(d.calls) == 0 {
+				follows, decided := true, false
+				switch lv := resolveVal(a2).(type) {
+				case *ssa.Phi:
+					for k, pb := range lv.Block().Preds {
+						if pb == call.Block() || call.Block().Dominates(pb) {
+							decided = true
+							if resolveVal(lv.Edges[k]) != resolveVal(a1) {
+								follows = false
+							}
+						}
+					}
+				case *ssa.Parameter:
+					instrs(down, func(b *ssa.BasicBlock, _ int, in ssa.Instruction) {
+						if rc, ok := in.(*ssa.Call); ok && staticCallee(&rc.Call) == down && (b == call.Block() || call.Block().Dominates(b)) && len(rc.Call.Args) == 2 {
+							decided = true
+							if resolveVal(rc.Call.Args[1]) != resolveVal(a1) {
+								follows = false
+							}
+						}
+					})
+				}
+				if decided {
+					r.ok(follows, "heap.Heap.percolateDown|follows-element#"+itoa(n), call.Pos(), "after swap(child, i) the sink must continue at that child (the slot the element now occupies), not at another index")
+				}
+			}
 		}
 		if n == 0 {
 			r.violated("heap.Heap.percolateDown|swap-guard", down.Pos(), "percolateDown never swaps")
@@ -1065,3 +1094,44 @@ func heapLessIdx(v ssa.Value) (ssa.Value, ssa.Value, bool) {
 	}
 	return x, y, true
 }
+
+// copy-moves-items (shared: C05 heap, C04 deque, C19 xslices): the destination of a copy() that moves a container's items into a
+// new backing array has room for them. copy copies min(len(dst), len(src)) items: a destination created with length 0
+// (make([]T, 0, n)) and not re-sliced receives nothing, however large its capacity - the container keeps its length and
+// forgets its items.
+func ruleCopyMovesItems(rels ...string) func(c *Ctx, r *R) {
+	return func(c *Ctx, r *R) {
+		for _, rel := range rels {
+			fns := c.funcsOfPkg(rel)
+			sort.Slice(fns, func(i, j int) bool { return c.nameOf(fns[i]) < c.nameOf(fns[j]) })
+			for _, fn := range fns {
+				name := c.nameOf(fn)
+				n := 0
+				instrs(fn, func(_ *ssa.BasicBlock, _ int, in ssa.Instruction) {
+					call, ok := in.(*ssa.Call)
+					if !ok {
+						return
+					}
+					bi, ok := call.Call.Value.(*ssa.Builtin)
+					if !ok || bi.Name() != "copy" || len(call.Call.Args) != 2 {
+						return
+					}
+					n++
+					empty := false
+					for _, lf := range valueLeaves(call.Call.Args[0], nil, 0) {
+						if mk, ok := resolveVal(lf.v).(*ssa.MakeSlice); ok && isConstInt(mk.Len, 0) {
+							empty = true
+						}
+					}
+					r.ok(!empty, name+"|copy#"+itoa(n), call.Pos(), "copy into a destination of length 0 ("+path(call.Call.Args[0])+" is make(..., 0, cap)) copies nothing: the items are not carried over to the new backing array")
+				})
+			}
+		}
+	}
+}
+
+var _ = late(func() {
+	properties["C05"].Rules = append(properties["C05"].Rules, &Rule{ID: "C05.copy-moves-items", Floor: 2, Clause: "every copy() in internal/heap, container/xheap and xslices (Grow/Shrink/Insert, which the heap's Grow and Shrink are built on) writes into a destination that has a length (copy moves min(len(dst), len(src)) items; a make([]T, 0, n) destination receives none)", Run: ruleCopyMovesItems("internal/heap", "container/xheap", "xslices")})
+	properties["C04"].Rules = append(properties["C04"].Rules, &Rule{ID: "C04.copy-moves-items", Floor: 2, Clause: "every copy() in container/deque (resize) writes into a destination that has a length: a make([]T, 0, n) destination receives no items", Run: ruleCopyMovesItems("container/deque")})
+	properties["C19"].Rules = append(properties["C19"].Rules, &Rule{ID: "C19.copy-moves-items", Floor: 2, Clause: "every copy() in xslices writes into a destination that has a length (copy moves min(len(dst), len(src)) items)", Run: ruleCopyMovesItems("xslices")})
+})
